@@ -3,6 +3,7 @@ package simrt
 import (
 	"fmt"
 	"reflect"
+	"time"
 	"unsafe"
 
 	"github.com/pion/interceptor"
@@ -48,6 +49,9 @@ type CaptureContext struct {
 	Sink   func(h *rtp.Header, payload []byte)
 	// YieldOnWrite makes every write a scheduling point (see WriteRTP)
 	YieldOnWrite bool
+	// Stall, if set, is asked before every write for how long the
+	// (simulated) transport blocks this time: a slow or congested subscriber
+	Stall func() time.Duration
 }
 
 type captureWriter struct{ c *CaptureContext }
@@ -56,6 +60,11 @@ func (w captureWriter) WriteRTP(h *rtp.Header, payload []byte) (int, error) {
 	// the real write (SRTP, socket) takes time and can block: a scheduling
 	// point between the caller handing over its buffer and the bytes
 	// leaving.  payload still aliases the caller's buffer here.
+	if w.c.Stall != nil {
+		if d := w.c.Stall(); d > 0 {
+			Sleep(d, "track.stall")
+		}
+	}
 	if w.c.YieldOnWrite {
 		Yield("track.write")
 	}
